@@ -23,7 +23,7 @@ Lemma write_spec k d s s' r :
   is_open s' = is_open s /\ buf s' = buf s /\ pend s' = pend s /\ orc s' = orc s /\ clk s' = clk s /\
   (is_open s = false -> s' = s /\ r = RInvalid) /\
   (is_open s = true -> r = RNone /\
-     dlog s' = match k with Sock _ => [DSend d; DSetTmo None] | Serial _ => [DSend d] end ++ dlog s).
+     dlog s' = DSend d :: dlog s).
 Proof.
   destruct k; unfold sock_write, ser_write; destruct (is_open s) eqn:E; intros [= <- <-]; sim;
     repeat split; auto; discriminate.
